@@ -19,6 +19,7 @@ TRUSTED_BASE = [
     'the return value of the Router\'s own Ack()/Nack() call is not observable and is projected out of the comparison',
     'modelled, not verified: the step granularity of Handler/PoisonConc.v (one step per point where another goroutine could interfere; Go memory model); '
     'PoisonQueue(Retry(h)): C12\'s model Handler/Retry.v is imported as is and evaluated with an environment whose select never takes ctx.Done() (the harness uses a live context and no MaxElapsedTime)',
+    'modelled, not verified: context.WithValue shadowing (Handler/PoisonCtx.v add_handler_ctx), exercised by the c13ctx scenario',
     'testing, not proof: the thorough tier re-runs the scenarios under the Go race detector (state shared between in-flight messages)',
 ]
 ASSUMPTIONS = [
